@@ -44,7 +44,7 @@ ASSUMPTIONS = ["theorems are over the reals for the Lean translation of Spectrum
                "NOT decided by theorem (DESIGN §5, C10 'N'): 'for Gaussian data with non-overlapping segments the density, coherence and magnitude "
                "deviations match the observed spread of the estimates over independent realisations' is a distributional statement about the "
                "estimators, not a property of the code path; it is only supported by a thorough-tier Monte-Carlo probe whose numbers are recorded in "
-               "the evidence notes and which alarms only on a gross (> factor 3) mismatch (measured ratios on the unchanged tree: 0.86 .. 1.15)"]
+               "the evidence notes and which alarms only on a gross (> factor 3) mismatch (measured on the unchanged tree over 3 seeds x 12 grid points: ratios 0.84 .. 1.38)"]
 RULE = ("synthetic: SpectrumResults built from (g in {1e-4, 0.01, 0.3, 0.99, 1-1e-8, 1 (exact), random}, n in {1, 2, 3, 10, 200, 5000, random}, "
         "XX, YY over 40 decades, random phase, fs, S2), cross and auto, each also re-built with another n; real: pairs (independent / weak / strong / "
         "delayed / mixed / identical) and single channels through compute_spectrum and compute_single_bin with Kdes in {1,2,5,20}, all orders and "
@@ -232,9 +232,9 @@ def probe(ctx, P: C.Part) -> None:
     L, fs, R = 64, 1.0, 160
     freq = fs * 8 / L
     rows = []
-    for gt in (0.3, 0.6, 0.9):
+    for gt in (0.1, 0.3, 0.6, 0.9):
         a = math.sqrt(gt / (1 - gt))
-        for nd in (16, 64):
+        for nd in (4, 16, 64):
             if ctx.time_left() < 60:
                 return
             est, dev = [], []
